@@ -192,6 +192,10 @@ struct PidSim
         if (ctype == 0) { c.site("a_pid_zero"); a_pid_zero(u.pid); }
         else if (ctype == 1) { c.site("a_pid_fuzzy_zero"); a_pid_fuzzy_zero(u.fz); }
         else { c.site("a_pid_neuro_zero"); a_pid_neuro_zero(u.nr); }
+        // a freshly initialised controller has an empty history: every remembered sample, sum and output is zero
+        a_pid const *pd = P(u);
+        if (pd->sum != 0 || pd->out != 0 || pd->var != 0 || pd->fdb != 0 || pd->err != 0 || (ctype == 2 && u.nr->ec != 0))
+            c.fail("zero-is-not-a-restart", ctype == 0 ? "a_pid_zero" : ctype == 1 ? "a_pid_fuzzy_zero" : "a_pid_neuro_zero", "state after zeroing is not the empty history (sum=%g out=%g var=%g fdb=%g err=%g)", (double)pd->sum, (double)pd->out, (double)pd->var, (double)pd->fdb, (double)pd->err);
     }
     void junk_state(Unit &u, double j)
     { // different junk in every *state* field; parameters stay
@@ -327,6 +331,7 @@ struct PidSim
         a_pid const before = *pd;
         double fz_want[3] = {0, 0, 0}; bool fz_amb = true;
         if (ctype == 1) { double const e0 = (double)(R)((R)setp - (R)delivered); ref_fuzzy_gains(e0, (double)(R)((R)e0 - (R)before.err), fz_want, fz_amb); }
+        a_pid_neuro nbefore; if (ctype == 2) nbefore = *m.nr;
         double const out = step_unit(m, setp, delivered);
         ++c.steps;
         if (ctype == 1 && !fz_amb)
@@ -386,6 +391,64 @@ struct PidSim
             if (fabsl((long double)out - wsat) > tol) return c.fail("difference-equation-violated", name, "output %.17g, documented equation gives %.17Lg (tolerance %.3Lg)", out, wsat, tol);
             if (var_d != pd->var) return c.fail("difference-equation-violated", name, "cached feedback difference %.17g, expected %.17g", pd->var, var_d);
             if (pd->fdb != delivered || pd->err != e_d) return c.fail("difference-equation-violated", name, "cached feedback/error not updated (fdb %.17g err %.17g, expected %.17g %.17g)", pd->fdb, pd->err, delivered, e_d);
+        }
+        // (3b) the single-neuron controller.  The header documents u(k) = u(k-1) + K*sum(w x)/sum|w| with the weight update
+        // taken at step k; the code omits u(k-1) and updates the weights from the previous step's inputs.  Which of the two
+        // is meant is not ours to decide, so both are accepted - but nothing else: inputs x_i = e, x_p = e(k)-e(k-1),
+        // x_d = e(k)-2e(k-1)+e(k-2) as remembered by the controller, Hebbian update eta*e(k)*u(k-1)*x, normalised output.
+        if (ctype == 2)
+        {
+            double const e_d = (double)(R)((R)setp - (R)delivered), ec_d = (double)(R)((R)e_d - (R)before.err);
+            if (pd->fdb != delivered || pd->err != e_d) return c.fail("difference-equation-violated", name, "cached feedback/error not updated (fdb %.17g err %.17g, expected %.17g %.17g)", pd->fdb, pd->err, delivered, e_d);
+            if (m.nr->ec != ec_d) return c.fail("difference-equation-violated", name, "remembered error change %.17g, e(k)-e(k-1) = %.17g", (double)m.nr->ec, ec_d);
+            if (mode == 0)
+            {
+                if (out != sat(setp, pd->outmin, pd->outmax)) return c.fail("difference-equation-violated", name, "open-loop mode returned %.17g for set-point %.17g and limits [%.17g, %.17g]", out, setp, (double)pd->outmin, (double)pd->outmax);
+            }
+            else
+            {
+                double const xd_d = (double)(R)((R)ec_d - (R)nbefore.ec);
+                if (pd->var != xd_d) return c.fail("difference-equation-violated", name, "remembered second difference %.17g, e(k)-2e(k-1)+e(k-2) = %.17g", pd->var, xd_d);
+                long double const g = (long double)e_d * (long double)before.out;
+                long double const eta[3] = {before.kp, before.ki, before.kd};
+                long double const w0[3] = {nbefore.wp, nbefore.wi, nbefore.wd};
+                long double const w1[3] = {m.nr->wp, m.nr->wi, m.nr->wd};
+                long double const x_prev[3] = {nbefore.ec, before.err, before.var}, x_now[3] = {ec_d, e_d, xd_d};
+                static char const *const WN[3] = {"wp", "wi", "wd"};
+                bool ok_prev = true, ok_now = true; int bad = 0;
+                // products that fall into the subnormal range of a_real (or overflow it) lose their relative accuracy in the
+                // library's arithmetic, whatever the order of evaluation: those steps are not compared
+                long double const rmin = R_IS_DOUBLE ? (long double)DBL_MIN : (long double)FLT_MIN, rmax4w = (R_IS_DOUBLE ? (long double)DBL_MAX : (long double)FLT_MAX) / 4;
+                auto usable = [&](long double v) { v = fabsl(v); return v == 0 || (v >= rmin && v <= rmax4w); };
+                for (int k = 0; k < 3; ++k)
+                {
+                    long double const da = eta[k] * g * x_prev[k], db = eta[k] * g * x_now[k];
+                    if (!usable(g) || !usable(eta[k] * g) || !usable(g * x_prev[k]) || !usable(g * x_now[k]) || !usable(eta[k] * x_prev[k]) || !usable(eta[k] * x_now[k]) || !usable(da) || !usable(db)) { c.st.add("probe.neuron_weight_update_skipped_range"); continue; }
+                    if (fabsl(w1[k] - (w0[k] + da)) > 64 * (long double)ulp_of((double)(fabsl(w0[k]) + fabsl(da)))) { ok_prev = false; bad = k; }
+                    if (fabsl(w1[k] - (w0[k] + db)) > 64 * (long double)ulp_of((double)(fabsl(w0[k]) + fabsl(db)))) ok_now = false;
+                }
+                if (!ok_prev && !ok_now) return c.fail("neuron-weight-update-wrong", name, "%s went from %.17Lg to %.17Lg; eta*e(k)*u(k-1)*x gives %.17Lg", WN[bad], w0[bad], w1[bad], w0[bad] + eta[bad] * g * x_prev[bad]);
+                long double const den = fabsl(w1[0]) + fabsl(w1[1]) + fabsl(w1[2]);
+                if (den > 0)
+                {
+                    long double const q = (long double)m.nr->k * (w1[0] * ec_d + w1[1] * e_d + w1[2] * xd_d) / den;
+                    long double const qs = fabsl((long double)m.nr->k) * (fabsl(w1[0] * ec_d) + fabsl(w1[1] * e_d) + fabsl(w1[2] * xd_d)) / den;
+                    // the library forms the products and their sum in a_real: when those can overflow there, the quotient is
+                    // infinite or NaN and the clamp decides the output (inside the limits, which is all C12 asks for then)
+                    long double const rmax4 = (R_IS_DOUBLE ? (long double)DBL_MAX : (long double)FLT_MAX) / 4;
+                    long double const sumabs = fabsl(w1[0] * ec_d) + fabsl(w1[1] * e_d) + fabsl(w1[2] * xd_d);
+                    if (sumabs > rmax4 || fabsl((long double)m.nr->k) * sumabs > rmax4 || den > rmax4) c.st.add("probe.neuron_equation_skipped_intermediate_overflow");
+                    else if (!usable(w1[0] * ec_d) || !usable(w1[1] * e_d) || !usable(w1[2] * xd_d) || !usable(den) || !usable(q) || !usable((long double)m.nr->k * w1[0]) || !usable((long double)m.nr->k * w1[1]) || !usable((long double)m.nr->k * w1[2]) || !usable(sumabs / den)) c.st.add("probe.neuron_equation_skipped_subnormal_products");
+                    else if (std::isfinite((double)q) && std::isfinite((double)qs))
+                    {
+                        auto satl = [&](long double v) { return v < pd->outmin ? (long double)pd->outmin : v > pd->outmax ? (long double)pd->outmax : v; };
+                        long double const tol = 64 * (long double)ulp_of((double)(qs + fabsl((long double)before.out)));
+                        if (fabsl((long double)out - satl(q)) > tol && fabsl((long double)out - satl((long double)before.out + q)) > tol)
+                            return c.fail("difference-equation-violated", name, "output %.17g; K*sum(w x)/sum|w| = %.17Lg (previous output %.17g)", out, q, (double)before.out);
+                        c.st.add("probe.neuron_equation_checked");
+                    }
+                }
+            }
         }
         // (4) restart replicas: bit-identical outputs step for step
         for (int k = 1; k < 3; ++k)
@@ -942,7 +1005,7 @@ struct CtlEngine : Engine
     }
     std::string rule(std::string const &prop) const override
     {
-        if (prop == "C12") return "items are seeded closed-loop histories (plain / fuzzy / neuron controller; exact dyadic or general floating regime; 3 plant stubs) with sensor faults, set-point jumps, retuning, mode switches and zero at arbitrary samples; every sample checks limits, finiteness, the integrator clamp clause, the documented difference equation (bit-exact in the dyadic regime), the fuzzy gain schedule against an independent evaluation (all 13 membership families, 7 operators, present or absent rule bases), restart replicas, a replica driven through the C++ member wrappers, and the positional/incremental pair; evaluations = histories; distinct_nontrivial = HyperLogLog estimate of distinct (mode, saturation flags, sign(sum), sign(err), clamp flags, controller type, active sensor fault, floor(output)) states";
+        if (prop == "C12") return "items are seeded closed-loop histories (plain / fuzzy / neuron controller; exact dyadic or general floating regime; 3 plant stubs) with sensor faults, set-point jumps, retuning, mode switches and zero at arbitrary samples; every sample checks limits, finiteness, the integrator clamp clause, the documented difference equation (bit-exact in the dyadic regime; for the single-neuron controller the remembered differences, the Hebbian weight update and the normalised output, accepting both the header's and the code's reading of the formula), the empty history after zeroing, the fuzzy gain schedule against an independent evaluation (all 13 membership families, 7 operators, present or absent rule bases), restart replicas, a replica driven through the C++ member wrappers, and the positional/incremental pair; evaluations = histories; distinct_nontrivial = HyperLogLog estimate of distinct (mode, saturation flags, sign(sum), sign(err), clamp flags, controller type, active sensor fault, floor(output)) states";
         return "items are seeded input histories through the real transfer function (orders 0..8, integer coefficients, four lock-step replicas: main, second input, linear combination, delayed input) or through the RC filters (dyadic or general alpha), with zero at arbitrary samples, numerator/denominator re-pointed in a running filter, a replica driven through the C++ members and initialiser macros, quiet phases with a settling bound, and coefficient generation over 24 decades (every third call over the whole positive double range); distinct_nontrivial = HyperLogLog estimate of distinct (numerator order, denominator order, binary exponent and sign of the output, exactness flag, samples since reset) states for the transfer function and (alpha in sixteenths, exponents and signs of both outputs, samples since reset) states for the RC filters";
     }
     std::vector<std::string> assumptions(std::string const &prop) const override
